@@ -9,6 +9,7 @@ pub mod c07;
 pub mod c08;
 pub mod c09;
 pub mod days;
+pub mod c10;
 pub mod c11;
 pub mod c12;
 pub mod c13;
@@ -17,6 +18,7 @@ pub mod c15;
 pub mod c16;
 pub mod c17;
 pub mod c18;
+pub mod c19;
 pub mod c20;
 
 pub fn meta(prop: &str) -> Option<Meta> {
@@ -30,6 +32,7 @@ pub fn meta(prop: &str) -> Option<Meta> {
         "C07" => c07::meta(),
         "C08" => c08::meta(),
         "C09" => c09::meta(),
+        "C10" => c10::meta(),
         "C11" => c11::meta(),
         "C12" => c12::meta(),
         "C13" => c13::meta(),
@@ -38,6 +41,7 @@ pub fn meta(prop: &str) -> Option<Meta> {
         "C16" => c16::meta(),
         "C17" => c17::meta(),
         "C18" => c18::meta(),
+        "C19" => c19::meta(),
         "C20" => c20::meta(),
         _ => return None,
     })
@@ -54,6 +58,7 @@ pub fn run(prop: &str, cfg: &Cfg, rep: &mut Rep) {
         "C07" => c07::run(cfg, rep),
         "C08" => c08::run(cfg, rep),
         "C09" => c09::run(cfg, rep),
+        "C10" => c10::run(cfg, rep),
         "C11" => c11::run(cfg, rep),
         "C12" => c12::run(cfg, rep),
         "C13" => c13::run(cfg, rep),
@@ -62,9 +67,10 @@ pub fn run(prop: &str, cfg: &Cfg, rep: &mut Rep) {
         "C16" => c16::run(cfg, rep),
         "C17" => c17::run(cfg, rep),
         "C18" => c18::run(cfg, rep),
+        "C19" => c19::run(cfg, rep),
         "C20" => c20::run(cfg, rep),
         _ => panic!("unknown property {prop}"),
     }
 }
 
-pub const ALL: [&str; 3] = ["C01", "C02", "C03"];
+pub const ALL: [&str; 20] = ["C01", "C02", "C03", "C04", "C05", "C06", "C07", "C08", "C09", "C10", "C11", "C12", "C13", "C14", "C15", "C16", "C17", "C18", "C19", "C20"];
